@@ -133,7 +133,7 @@ def write_replay(pid, case, judge, kind, extra=None):
     return os.path.relpath(path, VERIF)
 
 
-def lean_gate(pid, props_module=None, extra_modules=()):
+def lean_gate(pid, props_module=None, extra_modules=(), tier='quick'):
     """build Props/<pid> and the driver, audit axioms, scan sources.
     returns dict(ok, obligations, discharged, broken: [names], log)"""
     module = props_module or f'BespokeVerif.Props.{pid}'
@@ -171,6 +171,15 @@ def lean_gate(pid, props_module=None, extra_modules=()):
     if not names:
         res['ok'] = False
         res['broken'].append('no property theorems found for ' + module)
+    if tier == 'thorough' and ok:
+        mods = leanio.import_closure(module)
+        cok, clog = leanio.leanchecker(mods)
+        res['leanchecker'] = {'modules': mods, 'ok': cok}
+        if cok is False:
+            res['ok'] = False
+            res['broken'].append('leanchecker rejects the compiled modules: ' + clog[-400:])
+        elif cok is None:
+            res['notes'].append('leanchecker timed out (not counted)')
     res['wall'] = time.time() - t0
     return res
 
@@ -180,7 +189,7 @@ def run_check(pid, tier, seed, replay=None):
     mod = load_prop(pid)
     findings, _ = known_findings()
     listed = {f['class'] for f in findings.get(pid, []) if 'class' in f}
-    gate = lean_gate(pid, getattr(mod, 'PROPS_MODULE', None), getattr(mod, 'EXTRA_MODULES', ()))
+    gate = lean_gate(pid, getattr(mod, 'PROPS_MODULE', None), getattr(mod, 'EXTRA_MODULES', ()), tier)
     if not os.path.exists(leanio.DRIVER):
         print(f'INFRASTRUCTURE: model driver could not be built: {gate["broken"]}')
         return 2
@@ -286,7 +295,7 @@ def run_check(pid, tier, seed, replay=None):
             'trusted_base': TRUSTED_BASE + list(getattr(mod, 'TRUSTED_EXTRA', [])),
             'theorems': gate.get('theorems', []),
             'axioms': gate.get('axioms', {}),
-            'proof_gate_ok': gate['ok'], 'proof_gate_broken': gate['broken'],
+            'proof_gate_ok': gate['ok'], 'proof_gate_broken': gate['broken'], 'leanchecker': gate.get('leanchecker'),
             'programs': n_eval, 'evaluations': n_eval,
             'disagreements_checked': len(corrs) + len(violations),
             'distinct_nontrivial': len(nontrivial),
@@ -304,8 +313,9 @@ def run_check(pid, tier, seed, replay=None):
         'violations': n_viol,
     }
     if not replay:
-        os.makedirs(os.path.join(VERIF, 'evidence'), exist_ok=True)
-        with open(os.path.join(VERIF, 'evidence', f'{pid}.json'), 'w') as f:
+        evdir = os.environ.get('VERIF_EVIDENCE_DIR') or os.path.join(VERIF, 'evidence')   # dev sweeps redirect it
+        os.makedirs(evdir, exist_ok=True)
+        with open(os.path.join(evdir, f'{pid}.json'), 'w') as f:
             json.dump(ev, f, indent=1, default=str)
     for ln in lines:
         print(ln)
